@@ -176,6 +176,13 @@ Print Assumptions C06_unresolvable_is_error_when_checked.
 
 Local Open Scope N_scope.
 
+
+(* the source as it is now has the NULL check (fix 0771f90): the full statement
+   holds for the runner in force; this stops compiling if the check is removed *)
+Theorem C06_unresolvable_is_error : unresolvable_is_error find_step_null_checked.
+Proof. exact (unresolvable_if_checked eq_refl). Qed.
+Print Assumptions C06_unresolvable_is_error.
+
 (* no hook configured (or an empty one): robsd-hook never executes anything;
    it exits 0 without a word when the -v arguments are well formed and 1 with
    a diagnostic about the offending -v argument otherwise *)
